@@ -161,12 +161,17 @@ fn main() {
         let period = match rng.below(8) { 0 => None, 1 => Some(0), 2 => Some(start + t as u64 + 1), 3 => Some((start + t as u64).saturating_sub(1)), 4 => Some(start + t as u64 + 2), 5 => Some(start + 200), _ => Some(start + t as u64) };
         ops.push(Op::Chain(period));
         if !rng.chance(1, 12) { ops.push(Op::Open(epoch, sd.clone())); }
-        let nreg = rng.range(2, 7);
-        for _ in 0..nreg {
+        // every third history runs TWO rounds (epoch, then epoch + 1) over the same parties and keys: a key or a party
+        // stored for one round must not count for the other (`get_signers(round.epoch)`, store keyed by (epoch, party))
+        let two_rounds = h % 3 == 2;
+        let mut open_epoch = epoch;
+        let nreg = rng.range(2, 7) + if two_rounds { 3 } else { 0 };
+        for k in 0..nreg {
+            if two_rounds && k == nreg / 2 { open_epoch = epoch + 1; ops.push(Op::Open(open_epoch, sd.clone())); }
             let at = if rng.chance(1, 2) { pool[rng.below(4) as usize].clone() } else { pool[rng.below(pool.len() as u64) as usize].clone() };
-            let ep = if rng.chance(1, 10) { epoch + 1 } else { epoch };
+            let ep = if rng.chance(1, 10) { if open_epoch == epoch { epoch + 1 } else { epoch } } else { open_epoch };
             ops.push(Op::Reg(ep, at));
-            match rng.below(14) { 0 => ops.push(Op::Close), 1 => ops.push(Op::Open(epoch, sd.clone())), 2 => ops.push(Op::Chain(Some(start + t as u64))), _ => {} }
+            match rng.below(14) { 0 => ops.push(Op::Close), 1 => ops.push(Op::Open(open_epoch, sd.clone())), 2 => ops.push(Op::Chain(Some(start + t as u64))), _ => {} }
         }
 
         // ---- run it on the real leader ------------------------------------------------------------
@@ -240,7 +245,7 @@ fn main() {
             rows.iter().map(|r| format!("({},{},{},{},{})", r.0, r.1, r.2, r.3, r.4.map(|x| x.to_string()).unwrap_or("none".into()))).collect::<Vec<_>>().join(","),
             recorded.iter().map(|x| x.to_string()).collect::<Vec<_>>().join(","));
         let req = format!("c07.history skip=1 ops=[{}]", op_lines.join(","));
-        let i = sink.case(if h % 2 == 0 { "history-even" } else { "history-odd" }, &req, &out);
+        let i = sink.case(if two_rounds { "history-two-rounds" } else if h % 2 == 0 { "history-even" } else { "history-odd" }, &req, &out);
 
         // ---- S on the stored registrations ---------------------------------------------------------------
         for (ep, signers) in &stored {
@@ -258,7 +263,7 @@ fn main() {
                 match sd.iter().find(|(p, _)| *p == s.party_id) { None => why.push("pool not in the stake distribution of the round".into()), Some((_, st)) => if *st != s.stake { why.push("recorded stake is not the distribution's value".into()); } }
                 if RegistrationEntry::new(vkp, 1).is_err() { why.push("proof of possession invalid".into()); }
                 let kes_clause = match (&s.verification_key_signature_for_concatenation, s.kes_evolutions) {
-                    (Some(sig), Some(e)) => { let e = *e; (0u32..=64).any(|t| (t as u64) + 1 >= e && (t as u64) <= e.saturating_add(1) && sig.verify(t, &oc.get_kes_verification_key(), &vkp.to_bytes()).is_ok()) }
+                    (Some(sig), Some(e)) => { let e = *e; (0u32..=63).any(|t| (t as u64) + 1 >= e && (t as u64) <= e.saturating_add(1) && sig.verify(t, &oc.get_kes_verification_key(), &vkp.to_bytes()).is_ok()) }
                     _ => false,
                 };
                 if !why.is_empty() { sink.sfail(i, "registration", &format!("stored although: {}", why.join("; ")), &req); }
